@@ -14,25 +14,35 @@ func init() {
 		pop := x.Func(f, "Queue", "pop")
 		nwd := x.Func(f, "", "NewWithData")
 		reorder := x.Func(f, "Queue", "Reorder")
+		// Every definition is ALWAYS emitted — with the pinned expression as a fall-back when the source no
+		// longer has the expected shape (then `recognised := false`) — so that the driver still builds and the
+		// search for a failing input can run against the pinned model.
+		fallback := func() {
+			x.emit("def parentIdx (i : Nat) : Nat := i / 2\ndef leftIdx (i : Nat) : Nat := 2 * i + 1\ndef rightOfLeft (lc : Nat) : Nat := lc + 1\ndef heapifyStart (n : Nat) : Nat := n / 2\ndef popSiftsUp : Bool := false\n")
+		}
 		if pushUp == nil || pushDown == nil || pop == nil || nwd == nil || reorder == nil {
+			fallback()
 			return
 		}
 		vi := map[string]string{"i": "i"}
 		par := DefineOf(pushUp, "par")
 		if par == nil {
 			x.fail("pushUp: no `par := …`")
+			x.emit("def parentIdx (i : Nat) : Nat := i / 2\n")
 		} else {
 			x.emit("/-- `pushUp`: `par := %s` -/\ndef parentIdx (i : Nat) : Nat := %s\n", x.Src(par), x.NatExpr(par, vi))
 		}
 		lc := DefineOf(pushDown, "lc")
 		if lc == nil {
 			x.fail("pushDown: no `lc := …`")
+			x.emit("def leftIdx (i : Nat) : Nat := 2 * i + 1\n")
 		} else {
 			x.emit("/-- `pushDown`: `lc := %s` -/\ndef leftIdx (i : Nat) : Nat := %s\n", x.Src(lc), x.NatExpr(lc, vi))
 		}
 		rc := DefineOf(pushDown, "rc")
 		if rc == nil {
 			x.fail("pushDown: no `rc := …`")
+			x.emit("def rightOfLeft (lc : Nat) : Nat := lc + 1\n")
 		} else {
 			x.emit("/-- `pushDown`: `rc := %s` -/\ndef rightOfLeft (lc : Nat) : Nat := %s\n", x.Src(rc), x.NatExpr(rc, map[string]string{"lc": "lc"}))
 		}
@@ -57,7 +67,9 @@ func init() {
 			}
 			starts = append(starts, x.NatExpr(init, map[string]string{"len(q.data)": "n"}))
 		}
-		if len(starts) == 2 {
+		if len(starts) != 2 {
+			x.emit("def heapifyStart (n : Nat) : Nat := n / 2\n")
+		} else {
 			if starts[0] != starts[1] {
 				x.fail("NewWithData and Reorder heapify from different indices: %s vs %s", starts[0], starts[1])
 			}
